@@ -43,7 +43,7 @@ def brute_ok(rs, f, x, pat):
 class P(Prop):
     ID = "C15"
     THEOREMS = ["C15_at_least_one", "C15_sufficient", "C15_all_on_otherwise", "C15_minimal", "C15_monotone",
-                "C15_consequence", "C15_equal_size"]
+                "C15_consequence", "C15_equal_size", "C15_table_is_select"]
     MAKE_TARGETS = ["theories/Props/C15.vo", "theories/Check/Check_C15.vo"]
     CHECK_REQUIRE = ("From Coq Require Import QArith ZArith List Bool.\n"
                      "From Feems Require Import Base.Num Model.Pms Check.Check_C15.\nOpen Scope Q_scope.")
@@ -58,8 +58,7 @@ class P(Prop):
     QUICK_N = 260
     THOROUGH_N = 3000
     SHARD = 40
-    TRUSTED = ["C15 partial: equality of the code's table/digitize formulation (on_pattern_table) and the recursion `select` is "
-               "evaluated in Coq on every case, not proved in general"]
+    TRUSTED = ["the table/digitize formulation of the code equals the recursion `select` by theorem C15_table_is_select (all rating lists, fractions, loads); every correspondence case still evaluates both inside Coq"]
 
     def gen(self, rng, tier, override=None):
         out = []
